@@ -111,20 +111,40 @@ class _AppendLoopToComprehension(ast.NodeTransformer):
             a = stmts[i]
             b = stmts[i + 1] if i + 1 < len(stmts) else None
             new = None
-            if (isinstance(a, ast.Assign) and len(a.targets) == 1 and isinstance(a.targets[0], ast.Name) and isinstance(a.value, ast.List) and not a.value.elts
-                    and isinstance(b, ast.For) and not b.orelse and len(b.body) == 1):
+            kind = None
+            if isinstance(a, ast.Assign) and len(a.targets) == 1 and isinstance(a.targets[0], ast.Name):
+                if isinstance(a.value, ast.List) and not a.value.elts:
+                    kind = "list"
+                elif isinstance(a.value, ast.Dict) and not a.value.keys:
+                    kind = "dict"
+                elif isinstance(a.value, ast.Call) and isinstance(a.value.func, ast.Name) and a.value.func.id == "set" and not a.value.args and not a.value.keywords:
+                    kind = "set"
+            if kind is not None and isinstance(b, ast.For) and not b.orelse and len(b.body) == 1:
                 name = a.targets[0].id
                 ifs = []
                 cur = b.body[0]
                 while isinstance(cur, ast.If) and not cur.orelse and len(cur.body) == 1:
                     ifs.append(cur.test)
                     cur = cur.body[0]
-                if (isinstance(cur, ast.Expr) and isinstance(cur.value, ast.Call) and isinstance(cur.value.func, ast.Attribute) and cur.value.func.attr == "append"
-                        and isinstance(cur.value.func.value, ast.Name) and cur.value.func.value.id == name and len(cur.value.args) == 1 and not cur.value.keywords):
-                    elt = cur.value.args[0]
-                    reads = [x for part in [b.iter, elt] + ifs for x in ast.walk(part) if isinstance(x, ast.Name) and x.id == name]
+                parts = None
+                if (kind in ("list", "set") and isinstance(cur, ast.Expr) and isinstance(cur.value, ast.Call) and isinstance(cur.value.func, ast.Attribute)
+                        and cur.value.func.attr == ("append" if kind == "list" else "add")
+                        and isinstance(cur.value.func.value, ast.Name) and cur.value.func.value.id == name and len(cur.value.args) == 1 and not cur.value.keywords
+                        and not isinstance(cur.value.args[0], ast.Starred)):
+                    parts = [cur.value.args[0]]
+                elif (kind == "dict" and isinstance(cur, ast.Assign) and len(cur.targets) == 1 and isinstance(cur.targets[0], ast.Subscript)
+                        and isinstance(cur.targets[0].value, ast.Name) and cur.targets[0].value.id == name and not isinstance(cur.targets[0].slice, ast.Slice)):
+                    parts = [cur.targets[0].slice, cur.value]
+                if parts is not None:
+                    reads = [x for part in [b.iter] + parts + ifs for x in ast.walk(part) if isinstance(x, ast.Name) and x.id == name]
                     if not reads:
-                        comp = ast.ListComp(elt=elt, generators=[ast.comprehension(target=b.target, iter=b.iter, ifs=ifs, is_async=0)])
+                        gens = [ast.comprehension(target=b.target, iter=b.iter, ifs=ifs, is_async=0)]
+                        if kind == "list":
+                            comp = ast.ListComp(elt=parts[0], generators=gens)
+                        elif kind == "set":
+                            comp = ast.SetComp(elt=parts[0], generators=gens)
+                        else:
+                            comp = ast.DictComp(key=parts[0], value=parts[1], generators=gens)
                         new = ast.Assign(targets=[a.targets[0]], value=comp)
                         ast.copy_location(new, a)
                         ast.copy_location(comp, a)
